@@ -150,6 +150,9 @@ def to_model(case, obs):
                 r["sq"].append((c[2], c[3], c[4]))
             probes.append((len(evs), ci, "push"))
             evs.append("CRing %d (Push {| s_op := %s; s_ud := %d; s_flags := %d |})" % (c[1], coq_op(c[2]), c[3], c[4]))
+        elif n == "submit" and len(c) > 2 and c[2] == 3:
+            if obs["obs"][ci] != -1:
+                problems.append("cmd %d: submit_with_args with nsec = 10^9 returned %s instead of an error" % (ci, obs["obs"][ci]))
         elif n == "submit":
             r = tr.rings[c[1]]
             lats = tr.lats_for(r["sq"]) if r["alive"] else []
@@ -292,6 +295,9 @@ def oracle(case, obs):
                 fail("cmd %d: push refused with %d of %d entries queued" % (ci, len(r["sq"]), r["depth"]))
             if o is True:
                 r["sq"].append({"op": c[2], "ud": c[3], "flags": c[4], "push_cmd": ci})
+        elif n == "submit" and len(c) > 2 and c[2] == 3:
+            if o != -1:
+                fail("cmd %d: submit_with_args with a malformed timespec returned %s" % (ci, o))
         elif n == "submit":
             r = rings[c[1]]
             if not r["alive"]:
@@ -307,7 +313,17 @@ def oracle(case, obs):
                     e["expect"] = EINVAL
                     e["min_at"] = now
                 elif e["op"][0] == "cancel":
-                    tgt = next((x for x in r["acc"] if x["ud"] == e["op"][1] and x["done"] == 0), None)
+                    tgts = [x for x in r["acc"] if x["ud"] == e["op"][1] and x["done"] == 0]
+                    tgt = tgts[0] if tgts else None
+                    if len(tgts) > 1:
+                        # duplicate user_data in flight: which of them is hit is the ring's choice
+                        e["expect"] = 0
+                        e["min_at"] = now
+                        e["max_at"] = now
+                        e["dup_cancel"] = True
+                        r["dup"] = True
+                        r["acc"].append(e)
+                        continue
                     if tgt is not None:
                         tgt["cancelled"] = True
                         tgt["expect"] = ECANCELED
@@ -327,7 +343,7 @@ def oracle(case, obs):
             r = rings[c[1]]
             if not r["alive"] and isinstance(o, list) and o[0] != 0:
                 fail("cmd %d: completions visible on a lost ring" % ci)
-            if r["alive"] and isinstance(o, list):
+            if r["alive"] and isinstance(o, list) and not r.get("dup"):
                 pending = [x for x in r["acc"] if x["done"] == 0]
                 early = [x for x in pending if x["min_at"] > now]
                 if o[0] > len(pending) - len(early):
@@ -350,13 +366,16 @@ def oracle(case, obs):
                 was = [x for x in r["acc"] if x["ud"] == ud]
                 fail("cmd %d: completion (ud=%d,res=%d) %s" % (ci, ud, res, "is a second completion of one submission" if was else "carries a user_data that was never submitted"))
                 continue
-            e = cands[0]
+            e = (next((x for x in cands if x["expect"] is not None and x["expect"] == res), None)
+                 or next((x for x in cands if x["expect"] is None), None) or cands[0])
+            same = [x for x in cands if x["expect"] == e["expect"] and x["op"] == e["op"]]
+            e = min(same, key=lambda x: x["min_at"])
             e["done"] += 1
             e["res"] = res
             e["data"] = data
-            if now < e["min_at"]:
+            if now < e["min_at"] and not (r.get("dup") and res == ECANCELED):
                 fail("cmd %d: completion of ud=%d visible at %d ns, %d ns before its latency elapsed (submitted at %d)" % (ci, ud, now, e["min_at"] - now, e["t"]))
-            if e["expect"] is not None and len(cands) == 1:
+            if e["expect"] is not None and (len(cands) == 1 or len(same) == len(cands)):
                 if res != e["expect"]:
                     what = {EINVAL: "an unsupported flag", ECANCELED: "a cancelled operation", 0: "a cancel that found its target", ENOENT: "a cancel without target"}[e["expect"]]
                     fail("cmd %d: ud=%d is %s, result %d instead of %d" % (ci, ud, what, res, e["expect"]))
@@ -547,6 +566,8 @@ def gen_direct(rng, size=None, flavour=None):
         elif x < 0.66:
             ri = rng.choice(live) if live and rng.random() < 0.95 else rng.choice(anyr)
             r = rings[ri]
+            if rng.random() < 0.04:
+                s.append(["submit", ri, 3])          # malformed timespec: refused, nothing scheduled
             s.append(["submit", ri, rng.choice([0, 0, 0, 1, 2])])
             if r["alive"]:
                 r["out"].update(r["queued"])
@@ -605,6 +626,43 @@ def gen_direct(rng, size=None, flavour=None):
     for f in range(nfiles):
         s.append(["dump", f])
     return {"cfg": cfg, "script": s, "flavour": "direct", "full_drain": full}
+
+
+def gen_dup(rng):
+    """Duplicate user_data in flight at the same time (identical operations submitted at
+    different instants), cancelled by user_data: exercises the position-based lookup of
+    RingState::cancel (Vec::swap_remove order) against the model."""
+    L = rng.choice([100, 100, 200])
+    cfg = {"mode": "direct", "seed": rng.randrange(1 << 30), "lat_ns": L, "cache": None, "nfiles": 1}
+    s = [["open", 0], ["new", 8]]
+    now = 0
+    uds = [5, 6]
+    op = {5: rng.choice([["fsync", 0], ["read", 0, 0, 2]]), 6: ["fsync", 0]}
+    extra = 20
+    for _ in range(rng.randrange(4, 10)):
+        x = rng.random()
+        if x < 0.45:
+            u = rng.choice(uds)
+            s.append(["push", 0, op[u], u, 0])
+            if rng.random() < 0.3:
+                extra += 1
+                s.append(["push", 0, ["write", 0, rng.randrange(4), [rng.randrange(1, 200)]], extra, 0])
+            s.append(["submit", 0, 0])
+        elif x < 0.65:
+            extra += 1
+            s.append(["push", 0, ["cancel", rng.choice(uds)], extra, 0])
+            s.append(["submit", 0, 0])
+        elif x < 0.85:
+            now += rng.choice([10, 50, L - 10, L])
+            s.append(["now", now])
+        else:
+            s += [["cq_new", 0], ["sync", 0]] + [["next", 0]] * rng.choice([1, 2, 3])
+    for _ in range(3):
+        now += L // 2
+        s.append(["now", now])
+        s += [["cq_new", 0], ["sync", 0]] + [["next", 0]] * 12
+    s.append(["dump", 0])
+    return {"cfg": cfg, "script": s, "flavour": "dup", "full_drain": True}
 
 
 def exhaustive_small():
